@@ -55,7 +55,7 @@ def fill (dim band : Nat) : List (List Char) → Nat → Nat × Nat → Except V
   | [], elements, _ => if elements = 0 then .ok [] else .error .not_enough
   | w :: ws, elements, p =>
     if elements = 0 then .error .too_many
-    else if !isFloat w then .error .bad_element
+    else if !toDoubleOk w then .error .bad_element
     else match fill dim band ws (elements - 1) (nextPos dim band p) with
       | .ok ps => .ok (p :: ps)
       | .error e => .error e
